@@ -294,3 +294,6 @@ func VerifTSConv() {
 	symapi.Assert(tf.Pts == fr.Pts*90000/1000000000 && tf.Dts == fr.Dts*90000/1000000000, "90khz-conversion")
 	symapi.Reach("end")
 }
+
+// VerifSetKey lets harnesses of other packages build key frames (the field is unexported).
+func VerifSetKey(f *Frame, key bool) { f.key = key }
